@@ -1,2 +1,11 @@
-import Blackbird
-#print axioms Blackbird.dictGet
+import Blackbird.Props.C03
+#print axioms Blackbird.C03_add_meaning
+#print axioms Blackbird.C03_sub_meaning
+#print axioms Blackbird.C03_mul_meaning
+#print axioms Blackbird.C03_div_meaning
+#print axioms Blackbird.C03_pow_meaning
+#print axioms Blackbird.C03_int_closed
+#print axioms Blackbird.C03_int_negative_power_refused
+#print axioms Blackbird.C03_complex_meaning
+#print axioms Blackbird.C03_int_literal
+#print axioms Blackbird.C03_complex_literal_split
